@@ -34,6 +34,8 @@ func init() {
 			ruleWalReclaim(r)
 			ruleWalkComplete(r)
 			ruleWalRemovalOrder(r)
+			ruleFinishRenameLast(r)
+			ruleWalkSkipsRoot(r)
 		})
 	register("C07",
 		"Static ordering rules for the WAL: sync append = write + flush + fsync before a nil return (must-pass-through on the CFG), AppendSync uses the fsyncing writer call, rotation closes the old file before creating the next, size check precedes each write, replay sorts the fixed-width file names before reading, and replay classifies every truncation-class reader error as end of log (E-TORN). Decides the orderings on all paths; sequence equality and crash-point enumeration are not decided.",
@@ -65,6 +67,8 @@ func init() {
 			ruleNoGlob(r)
 			ruleWalkComplete(r)
 			ruleWalRemovalOrder(r)
+			ruleFinishRenameLast(r)
+			ruleWalkSkipsRoot(r)
 		})
 	register("C13",
 		"Static rules for the asynchronous WAL: the buffered append exists only under the option (control dependence), rotation closes (flushes) the old WAL file before the memstore is handed to the flusher, FileWriter.Close flushes before closing, and replay treats an incomplete final record as end of log (E-TORN). Decides these shapes; the prefix property over crash points is not decided.",
